@@ -4,6 +4,7 @@
 
 use crate::engine::*;
 use crate::sym::{self, GenCfg, HistCase, HistResult};
+use proptest::prelude::*;
 use serde_json::{json, Value};
 
 pub struct HistProp {
@@ -17,6 +18,8 @@ pub struct HistProp {
     pub classes: fn(&HistCase, &HistResult) -> Vec<String>,
     pub min_nontrivial_pct: f64,
     pub assumptions: &'static [&'static str],
+    /// also run the histories under RandomPolicy with a limit of a few records
+    pub pressure: bool,
 }
 
 pub fn run_case(hp: &HistProp, case: &HistCase) -> CaseReport {
@@ -61,10 +64,71 @@ pub fn check(ctx: &Ctx, hp: &HistProp, acc: &Accum) -> i32 {
             Err(e) => acc.note(format!("regress file {} unreadable: {}", path, e)),
         }
     }
+    explore_all(ctx, hp, acc)
+}
+
+/// the generated phases (in-process, over TCP, under memory pressure) without the regression tier
+pub fn explore_all(ctx: &Ctx, hp: &HistProp, acc: &Accum) -> i32 {
     let cases = ctx.by(hp.cases_quick, hp.cases_thorough);
     let cfg = hp.cfg.clone();
     let strat = move || sym::hist_strategy(&cfg);
     let found = explore(ctx, acc, "l1-histories", "hist", &strat, cases, ctx.workers, |c: &HistCase| run_case(hp, c));
+    if let Some(f) = found {
+        let case = serde_json::to_value(&f.case).unwrap();
+        report_violation(ctx, "hist", &case, &f.fail);
+        write_evidence(ctx, acc, hp.rule, hp.assumptions, 1);
+        print_summary(ctx, acc);
+        return EXIT_VIOLATION;
+    }
+    // the same generator and the same oracle, every command through a real socket and the server's
+    // connection handling (client_handler.rs / binary_connection.rs) under the same injected clock
+    let cfg = hp.cfg.clone();
+    let strat = move || {
+        sym::hist_strategy(&cfg)
+            .prop_map(|mut c| {
+                c.tcp = true;
+                c
+            })
+            .boxed()
+    };
+    let cases = ctx.by((hp.cases_quick / 12).max(1), (hp.cases_thorough / 12).max(1));
+    let found = explore(ctx, acc, "tcp-histories", "hist", &strat, cases, ctx.workers, |c: &HistCase| run_case(hp, c));
+    if let Some(f) = found {
+        let case = serde_json::to_value(&f.case).unwrap();
+        report_violation(ctx, "hist", &case, &f.fail);
+        write_evidence(ctx, acc, hp.rule, hp.assumptions, 1);
+        print_summary(ctx, acc);
+        return EXIT_VIOLATION;
+    }
+    // the same generator and oracle under real memory pressure: RandomPolicy with a limit of a few
+    // records, so that stores evict. The model then accepts a miss on any item at any time (eviction is
+    // excused by every property of this family); what it still judges is everything that is *returned*
+    // (value, flags, CAS, an item served although it must be dead) and every status.
+    if !hp.pressure {
+        return EXIT_OK;
+    }
+    let mut cfg = hp.cfg.clone();
+    // refused (stale-CAS) stores, more keys and longer histories: more commands that evict without storing
+    cfg.cas_nonzero_pct = cfg.cas_nonzero_pct.max(40);
+    cfg.max_keys = cfg.max_keys.max(5);
+    cfg.max_ops = cfg.max_ops.max(60);
+    let strat = move || {
+        (sym::hist_strategy(&cfg), prop::sample::select(vec![400u64, 700, 1500]))
+            .prop_map(|(mut c, l)| {
+                c.evict_limit = Some(l);
+                c.policy_random = true;
+                c.max_val = Some(200);
+                c.limit = 65536;
+                c
+            })
+            .boxed()
+    };
+    let cases = ctx.by((hp.cases_quick / 4).max(1), (hp.cases_thorough / 4).max(1));
+    let found = explore(ctx, acc, "pressure-histories", "hist", &strat, cases, ctx.workers, |c: &HistCase| {
+        let mut r = run_case(hp, c);
+        r.classes.push("under_memory_pressure".into());
+        r
+    });
     if let Some(f) = found {
         let case = serde_json::to_value(&f.case).unwrap();
         report_violation(ctx, "hist", &case, &f.fail);
@@ -96,8 +160,16 @@ pub fn replay_file(hp: &HistProp, path: &str) -> Result<Option<FailInfo>, String
     let s = std::fs::read_to_string(path).map_err(|e| e.to_string())?;
     let v: Value = serde_json::from_str(&s).map_err(|e| e.to_string())?;
     let case: HistCase = serde_json::from_value(v["case"].clone()).map_err(|e| e.to_string())?;
-    let (res, _) = sym::run_hist(&case, Some(hp.prop), false);
-    Ok(res.fail.as_ref().map(|f| fail_info(&case, f)))
+    // eviction victims are drawn from the server's own random source: a case under memory pressure is
+    // re-executed until it fails or 60 executions have passed
+    let tries = if case.evict_limit.is_some() { 60 } else { 1 };
+    for _ in 0..tries {
+        let (res, _) = sym::run_hist(&case, Some(hp.prop), false);
+        if let Some(f) = res.fail.as_ref() {
+            return Ok(Some(fail_info(&case, f)));
+        }
+    }
+    Ok(None)
 }
 
 pub fn replay(hp: &HistProp, path: &str) -> i32 {
